@@ -294,9 +294,11 @@ func runChild(cfg Config, specJSON string) *hx.Result {
 		}
 	case "d2", "d2count":
 		if thorough {
-			runD2Scenario(r, rng, sp.Procs, G, 4000, 120, sp.Scenario == "d2count")
+			runD2Scenario(r, rng, sp.Procs, G, 4000, 120, sp.Scenario == "d2count", false)
+			runD2Scenario(r, rng, sp.Procs, G, 2000, 60, sp.Scenario == "d2count", true)
 		} else {
-			runD2Scenario(r, rng, sp.Procs, G, 1500, 40, sp.Scenario == "d2count")
+			runD2Scenario(r, rng, sp.Procs, G, 1500, 40, sp.Scenario == "d2count", false)
+			runD2Scenario(r, rng, sp.Procs, G, 800, 20, sp.Scenario == "d2count", true)
 		}
 	default:
 		fmt.Fprintln(os.Stderr, "harness: unknown scenario", sp.Scenario)
